@@ -308,8 +308,8 @@ Print Assumptions C03_class_ex.
 (* ---------------------------------------------------------------- *)
 (* DHCPv4.  For every buffer of capacity >= 300 that holds the options, every opcode / message
    type / chaddr / ciaddr / yiaddr / xid / broadcast flag, every option map with distinct keys
-   (codes other than Pad and End, values of at most 255 bytes, encoding within the 1024-byte
-   scratch buffer and the capacity), every requested-parameter order and every iteration order
+   (codes other than Pad and End, values of at most 255 bytes, encoding plus End within the
+   capacity; the 1024-byte scratch limit was removed by repo commit 7c42d76), every requested-parameter order and every iteration order
    [perm] of the options the order does not name:
    the message is header ++ options ++ End ++ zero padding with at least 300 bytes; the options
    are the supplied map plus option 53 = message type, each exactly once; ParseOptions returns
@@ -322,7 +322,7 @@ Theorem C03_dhcp4_rt : forall b opcode mt chaddr ci yi xid bc options order perm
   match chaddr with Some m => length m = 6%nat | None => True end ->
   match xid with Some x => length x = 4%nat | None => True end ->
   let o' := set_opt 53 [mt] options in
-  nodup options -> opts_ok o' -> (osize o' <= SCRATCH)%nat -> (241 + osize o' <= cap b)%nat ->
+  nodup options -> opts_ok o' -> (241 + osize o' <= cap b)%nat ->
   let em := emission o' order perm in
   let L := Nat.max (241 + osize o') 300 in
   let pad := repeat 0 (300 - (241 + osize em)) in
@@ -350,7 +350,7 @@ Print Assumptions C03_dhcp4_rt_ex.
 
 (* the option area alone, for any bytes [z] after the End option *)
 Theorem C03_dhcp4_options_rt : forall o order perm z,
-  nodup o -> opts_ok o -> (osize o <= SCRATCH)%nat ->
+  nodup o -> opts_ok o ->
   let em := emission o order perm in
   let area := enc em ++ 255 :: z in
   append_options_bytes o order perm = Ok (enc em) /\
